@@ -128,6 +128,9 @@ func newC18Resolver(fd *ast.FuncDecl) *c18Resolver {
 			// x := f(..)  /  x, err := f(..): the first name stands for the call
 			if id, ok := as.Lhs[0].(*ast.Ident); ok && id.Name != "_" && id.Name != "err" {
 				r.defs[id.Name] = append(r.defs[id.Name], c18Def{as.Pos(), as.Rhs[0]})
+			} else if se, ok := as.Lhs[0].(*ast.SelectorExpr); ok && len(as.Lhs) == 1 {
+				// a field that is assigned in the function (exp.PackageFile = datDst): keyed by its text
+				r.defs[exprText(se)] = append(r.defs[exprText(se)], c18Def{as.Pos(), as.Rhs[0]})
 			}
 		} else if ok && len(as.Lhs) == len(as.Rhs) {
 			// a, b := x, y
@@ -174,6 +177,27 @@ func (r *c18Resolver) text(e ast.Expr, depth int, at token.Pos) string {
 		}
 		return x.Name
 	case *ast.SelectorExpr:
+		if ds, ok := r.defs[exprText(x)]; ok && depth > 0 {
+			var alts []string
+			for i := range ds {
+				if ds[i].pos < at {
+					t := r.text(ds[i].e, depth-1, ds[i].pos)
+					dup := false
+					for _, a := range alts {
+						dup = dup || a == t
+					}
+					if !dup {
+						alts = append(alts, t)
+					}
+				}
+			}
+			if len(alts) == 1 {
+				return alts[0]
+			}
+			if len(alts) > 1 {
+				return "{" + strings.Join(alts, " | ") + "}"
+			}
+		}
 		return r.text(x.X, depth, at) + "." + x.Sel.Name
 	case *ast.CallExpr:
 		var args []string
@@ -189,6 +213,29 @@ func (r *c18Resolver) text(e ast.Expr, depth int, at token.Pos) string {
 		return x.Op.String() + r.text(x.X, depth, at)
 	}
 	return exprText(e)
+}
+
+// c18FuncSites: in one function, every mutating os call and every call of one of [extra]
+func c18FuncSites(rel, recv, name string, extra map[string]bool) (res []string) {
+	fd := findFunc(rel, recv, name)
+	if fd == nil {
+		fail("%s: %s not found", rel, name)
+		return nil
+	}
+	rs := newC18Resolver(fd)
+	ast.Inspect(fd, func(nd ast.Node) bool {
+		c, isC := nd.(*ast.CallExpr)
+		if !isC || !(c18MutatingCalls[exprText(c.Fun)] || extra[exprText(c.Fun)]) {
+			return true
+		}
+		var args []string
+		for _, a := range c.Args {
+			args = append(args, rs.text(a, 6, c.Pos()))
+		}
+		res = append(res, fmt.Sprintf("(%s, %s)", coqStr(exprText(c.Fun)), coqStrList(args)))
+		return true
+	})
+	return res
 }
 
 // c18Sites: every mutating os call in the non-test files of a package directory
@@ -323,6 +370,53 @@ func c18MoreDefs(g *gen) {
 		}
 		g.def(it[1], "list (string * string * list string)", "["+strings.Join(sites, "; ")+"]", "mutating os calls in "+it[0]+" (function, callee, arguments as written)")
 	}
+
+	// --- cachePackage and retrieveAndSaveFile: what they create, advertise and remove ------------
+	adv := map[string]bool{"paths.AdvertiseCachedFile": true}
+	cps := c18FuncSites("pkg/apk/apk/implementation.go", "APK", "cachePackage", adv)
+	if len(cps) == 0 {
+		fail("pkg/apk/apk/implementation.go: cachePackage: no paths.AdvertiseCachedFile call found")
+	}
+	g.def("cachepackage_sites", "list (string * list string)", "["+strings.Join(cps, "; ")+"]", "cachePackage: every call that creates, links or removes a file (callee, arguments traced to parameters $i and literals)")
+	rss := c18FuncSites("pkg/apk/apk/cache.go", "cacheTransport", "retrieveAndSaveFile", adv)
+	if len(rss) == 0 {
+		fail("pkg/apk/apk/cache.go: retrieveAndSaveFile: no creating call found")
+	}
+	g.def("retrieve_sites", "list (string * list string)", "["+strings.Join(rss, "; ")+"]", "retrieveAndSaveFile: every call that creates, links or removes a file (cp = the cachePlacer parameter's result)")
+	// the suffix literals of the advertised names, in source order: <hex> + <lit> inside filepath.Join(.., ..),
+	// and the literal trimmed for the tar
+	var sufs []string
+	trim := ""
+	if cfd := findFunc("pkg/apk/apk/implementation.go", "APK", "cachePackage"); cfd != nil {
+		ast.Inspect(cfd, func(n ast.Node) bool {
+			c, ok := n.(*ast.CallExpr)
+			if !ok {
+				return true
+			}
+			switch exprText(c.Fun) {
+			case "filepath.Join":
+				if len(c.Args) == 2 {
+					if b, ok := c.Args[1].(*ast.BinaryExpr); ok && b.Op == token.ADD {
+						if v, ok := strLit(b.Y); ok {
+							sufs = append(sufs, v)
+						}
+					}
+				}
+			case "strings.TrimSuffix":
+				if len(c.Args) == 2 {
+					if v, ok := strLit(c.Args[1]); ok && trim == "" {
+						trim = v
+					}
+				}
+			}
+			return true
+		})
+	}
+	if len(sufs) == 0 || trim == "" {
+		fail("pkg/apk/apk/implementation.go: cachePackage: filepath.Join(_, _ + <lit>) / strings.TrimSuffix(_, <lit>) not found")
+	}
+	g.def("cachepackage_suffixes", "list string", coqStrList(sufs), "cachePackage: the literal suffixes of the advertised names, in source order")
+	g.def("cachepackage_tar_trim", "string", coqStr(trim), "cachePackage: the tar's name is the data member's without this suffix")
 
 	// --- the literals those calls are built from ----------------------------------------------
 	const expGo = "pkg/apk/expandapk/expandapk.go"
